@@ -23,7 +23,9 @@ SPELL = {
 OPERANDS = ["a", "1.0e-3", "b(i+1)", "2.5d+0", "f(x, y-1)", "p%q", ".true.", "'a+b'", "\"c//d\"", "3", "1.e5", "c(1:2)", "z_8", "(/1, 2/)",
             "g(-1)", "w(i)%v(j)", "4.e-2_k", ".false.",
             # names that end like the mantissa of an exponent literal (digit + e/d): before a sign they must stay names
-            "t3d", "n1e", "q2e4", "v_1d"]
+            "t3d", "n1e", "q2e4", "v_1d",
+            # character literals that end in a backslash (not an escape in Fortran) or hold brackets and operators
+            "'a\\'", "'\\'", "'(x)*'"]
 NUMERIC = {"1.0e-3", "2.5d+0", "3", "1.e5", "4.e-2_k"}
 
 
